@@ -1329,7 +1329,6 @@ def _atan2_pt(ym, ye, xm, xe):
         if xm < 0:
             return pi()
         raise Indeterminate('atan2(0, 0)')
-    hp = None
     if xm == 0:
         hp = pi().ldexp(-1)
         return hp if ym > 0 else -hp
@@ -1775,7 +1774,7 @@ def _log_abs(x, y):
             else:
                 s = _dadd_exact(hm, he, 1, 0)
                 r = log(+RB.point(s[0], s[1])).ldexp(-1)
-            return +r if False else r
+            return r
         ax, ay = abs(x), abs(y)
         big, small = (ax, ay) if ax.certainly_ge(ay) or not ay.certainly_ge(ax) else (ay, ax)
         s = ax.sqr() + ay.sqr()
